@@ -1437,6 +1437,7 @@ func runClose(ctx *Ctx) error {
 	workers := 6
 	var wg sync.WaitGroup
 	next := int32(-1)
+	var hung int32
 	for w := 0; w < workers; w++ {
 		wg.Add(1)
 		go func() {
@@ -1456,7 +1457,16 @@ func runClose(ctx *Ctx) error {
 					}()
 					t0 := time.Now()
 					pprof.Do(context.Background(), pprof.Labels("case", id), func(context.Context) {
-						obs, fl := runCase(id, j.toks, bound)
+						// when hangs are systemic (a broken close path) the full bound per call would
+						// make the run take hours: the verdict is already in, so shorten it
+						b := bound
+						if atomic.LoadInt32(&hung) >= 12 {
+							b = 1500 * time.Millisecond
+						}
+						obs, fl := runCase(id, j.toks, b)
+						if !fl["returned"] && !fl["poisoned"] {
+							atomic.AddInt32(&hung, 1)
+						}
 						results[i] = result{obs, fl}
 					})
 					if d := time.Since(t0); d > time.Second && os.Getenv("CLOSE_DEBUG") != "" {
